@@ -907,6 +907,12 @@ func (w *World) execSlice(fr *frame, in *ssa.Slice) Value {
 	wasNil := false
 	switch xv := x.(type) {
 	case Slice:
+		if xv.sym != nil {
+			if lo == nil && hi == nil && max == nil {
+				return xv
+			}
+			panic(w.unsupported("slicing a []byte view of a symbolic string"))
+		}
 		a = xv.a
 		wasNil = xv.nil
 	case Ptr: // *array
@@ -947,6 +953,9 @@ func (w *World) execIndexAddr(fr *frame, in *ssa.IndexAddr) Value {
 	idx := w.get(fr, in.Index)
 	switch xv := x.(type) {
 	case Slice:
+		if xv.sym != nil {
+			panic(w.unsupported("indexing a []byte view of a symbolic string"))
+		}
 		i := w.concretizeIndex(idx, len(xv.a))
 		return Ptr(&xv.a[i])
 	case Ptr:
@@ -1281,6 +1290,9 @@ func (w *World) callBuiltin(th *Thread, b *ssa.Builtin, args []Value, site ssa.I
 		case string, BStr, *Term:
 			return w.strLen(x)
 		case Slice:
+			if x.sym != nil {
+				return w.strLen(x.sym)
+			}
 			return int64(len(x.a))
 		case Array:
 			return int64(len(x))
